@@ -1,7 +1,9 @@
 package main
 
 import (
+	"bytes"
 	"context"
+	"encoding/json"
 	"log/slog"
 	"net/http"
 	"net/http/httptest"
@@ -199,7 +201,97 @@ func execLogMwLvl(args []string) string {
 	return innerRec + " mw=" + I(others)
 }
 
+// logmwjh: args = k1, k2, request A, request B ("method,host,uri,raddr").  The middleware's base logger
+// is a real JSONHybrid logger that went through With(k1 attributes) and, when k2 > 0, With(k2 more): the
+// attribute slice the per-request loggers are derived from then has spare capacity for some (k1, k2).
+// Request A is inside its handler while request B is served from start to finish; then A's handler logs
+// and returns.  The observation is the sequence of record messages (the "elapsed" attribute removed).
+func execLogMwJH(args []string) string {
+	k1, k2 := Atoi(args[0]), Atoi(args[1])
+	var mu sync.Mutex
+	var out bytes.Buffer
+	l := slog.New(slogutil.NewJSONHybridHandler(&lockedWriter{mu: &mu, w: &out}, nil))
+	with := func(l *slog.Logger, pre string, k int) *slog.Logger {
+		var as []any
+		for i := 0; i < k; i++ {
+			as = append(as, slog.Int(pre+I(i), i))
+		}
+		return l.With(as...)
+	}
+	if k1 > 0 {
+		l = with(l, "a", k1)
+	}
+	if k2 > 0 {
+		l = with(l, "b", k2)
+	}
+	mw := httputil.NewLogMiddleware(l, slog.LevelInfo)
+	mk := func(rq string) *http.Request {
+		f := strings.Split(rq, ",")
+		req := httptest.NewRequest(f[0], "http://"+f[1]+f[2], nil)
+		req.RemoteAddr = f[3]
+		req.RequestURI = f[2]
+		return req
+	}
+	aIn, bDone := make(chan struct{}), make(chan struct{})
+	hA := mw.Wrap(http.HandlerFunc(func(w http.ResponseWriter, r *http.Request) {
+		close(aIn)
+		<-bDone
+		if cl, ok := slogutil.LoggerFromContext(r.Context()); ok {
+			cl.Info("innerA")
+		}
+	}))
+	hB := mw.Wrap(http.HandlerFunc(func(w http.ResponseWriter, r *http.Request) {
+		if cl, ok := slogutil.LoggerFromContext(r.Context()); ok {
+			cl.Info("innerB")
+		}
+	}))
+	aDone := make(chan struct{})
+	go func() {
+		defer close(aDone)
+		hA.ServeHTTP(&callRecorder{hdr: http.Header{}}, mk(args[2]))
+	}()
+	<-aIn
+	hB.ServeHTTP(&callRecorder{hdr: http.Header{}}, mk(args[3]))
+	close(bDone)
+	<-aDone
+	var msgs []string
+	for _, line := range strings.Split(strings.TrimSpace(out.String()), "\n") {
+		var v struct {
+			Message string `json:"message"`
+		}
+		if err := json.Unmarshal([]byte(line), &v); err != nil {
+			msgs = append(msgs, "BAD-JSON")
+
+			continue
+		}
+		var keep []string
+		for _, t := range strings.Split(v.Message, " ") {
+			if !strings.HasPrefix(t, "elapsed=") && !strings.HasPrefix(t, "time=") {
+				keep = append(keep, t)
+			}
+		}
+		msgs = append(msgs, strings.Join(keep, " "))
+	}
+	return strings.Join(msgs, " | ")
+}
+
+type lockedWriter struct {
+	mu *sync.Mutex
+	w  *bytes.Buffer
+}
+
+func (l *lockedWriter) Write(b []byte) (int, error) {
+	l.mu.Lock()
+	defer l.mu.Unlock()
+	return l.w.Write(b)
+}
+
 func genC20(g *G) {
+	for k1 := 0; k1 <= 9; k1++ {
+		for k2 := 0; k2 <= 6; k2++ {
+			g.Emit("logmwjh", I(k1), I(k2), "GET,a"+I(k1)+".example,/a/x"+I(k2)+",10.1.1.1:1"+I(k1), "POST,b"+I(k2)+".example,/b"+I(k1)+",10.2.2.2:2"+I(k2))
+		}
+	}
 	for _, code := range []int{0, 200, 201, 204, 301, 404, 500, 503} {
 		for n := 1; n <= 3; n++ {
 			g.Emit("logmw2", I(code), I(n))
@@ -240,8 +332,8 @@ func genC20(g *G) {
 func init() {
 	properties["C20"] = &Property{
 		Gen:   genC20,
-		Exec:  map[string]Executor{"wrap": execWrap, "logmw": execLogMw, "logmwlvl": execLogMwLvl, "logmw2": execLogMw2},
+		Exec:  map[string]Executor{"wrap": execWrap, "logmw": execLogMw, "logmwlvl": execLogMwLvl, "logmw2": execLogMw2, "logmwjh": execLogMwJH},
 		Class: func(fn string, args []string, obs string) string { return fn },
-		Rule:  "wrap: middleware lists of length 0..5 recording pre/post order; Wrap is called twice on the same caller-owned slice. logmw: 1..5 successive requests through one LogMiddleware (so pooled objects are reused) with distinct method/host/URI/remote address, handlers that write headers 0..2 times (incl. 1xx then final) and bodies; observed: what the inner handler sees, what the client receives, the 'started' and 'finished' records with the context logger's four attributes and the code. The concurrent interleavings are explored by the -race driver 'logmw' of cmd/conc. distinct=arguments",
+		Rule:  "wrap: middleware lists of length 0..5 recording pre/post order; Wrap is called twice on the same caller-owned slice. logmw: 1..5 successive requests through one LogMiddleware (so pooled objects are reused) with distinct method/host/URI/remote address, handlers that write headers 0..2 times (incl. 1xx then final) and bodies; observed: what the inner handler sees, what the client receives, the 'started' and 'finished' records with the context logger's four attributes and the code. logmwjh: two overlapping requests (A inside its handler while B is served) through a LogMiddleware over a real JSONHybrid logger with With histories of 0..9 and 0..6 attributes (spare capacity in the base attribute slice); every record must carry its own request's attributes. The concurrent interleavings are explored by the -race driver 'logmw' of cmd/conc. distinct=arguments",
 	}
 }
